@@ -319,6 +319,23 @@ fn structured<CS: BbsCiphersuite>(rep: &Report, ck: &str, h: &Honest, c: &Call) 
             call(rep, ck, "blind_proof_verify(mismatched lists)", units, inp, || p.blind_proof_verify(&pk, hdr, ph, Some(count % 8), mb_arg, ma_arg, ib_arg, ia_arg).is_ok())?;
         }
     }
+    // the same decoded proof objects used for a series of calls with index lists of different lengths (what an
+    // object remembers from one call must not break the next): generated lists, the honest ones, empty ones
+    if c.opt_none % 4 == 0 {
+        let honest_m: Vec<Vec<u8>> = vec![h.msgs[0].clone(), h.msgs[2].clone()];
+        let honest_i: Vec<usize> = vec![0, 2];
+        for pbytes in [&h.proof, &h.proof_all] {
+            let p = PoKSignature::<BBSplus<CS>>::from_bytes(pbytes).unwrap();
+            call(rep, ck, "proof_verify(same object, 1st call)", units, inp, || p.proof_verify(&pk, ma_arg, ia_arg, hdr, ph).is_ok())?;
+            call(rep, ck, "proof_verify(same object, honest lists)", units, inp, || p.proof_verify(&pk, Some(&honest_m), Some(&honest_i), Some(&h.header), Some(&h.ph)).is_ok())?;
+            call(rep, ck, "proof_verify(same object, empty lists)", units, inp, || p.proof_verify(&pk, None, None, hdr, ph).is_ok())?;
+            call(rep, ck, "proof_verify(same object, generated lists again)", units, inp, || p.proof_verify(&pk, mb_arg, ib_arg, hdr, ph).is_ok())?;
+        }
+        let bp = PoKSignature::<BBSplus<CS>>::from_bytes(&h.bproof).unwrap();
+        call(rep, ck, "blind_proof_verify(same object, 1st call)", units, inp, || bp.blind_proof_verify(&pk, hdr, ph, Some(count % 8), ma_arg, mb_arg, ia_arg, ib_arg).is_ok())?;
+        call(rep, ck, "blind_proof_verify(same object, empty lists)", units, inp, || bp.blind_proof_verify(&pk, hdr, ph, Some(h.msgs.len()), None, None, None, None).is_ok())?;
+        call(rep, ck, "blind_proof_verify(same object, lists exchanged)", units, inp, || bp.blind_proof_verify(&pk, hdr, ph, Some(count % 8), mb_arg, ma_arg, ib_arg, ia_arg).is_ok())?;
+    }
     rep.nontrivial(ck, c);
     if c.idx_a.iter().chain(c.idx_b.iter()).any(|&x| x > 1 << 31) {
         rep.class("has-huge-index");
@@ -548,7 +565,7 @@ pub fn run(ctx: &Ctx, rep: &Report) -> Meta {
         rule: "(1) every length 0..=1024 x byte classes {zeros, 0xff, 0xc0-prefixed, 0xc0 every 48, random, honest proof/commitment/pk/signature/blind proof cut or padded (zero and random padding)} into every octet decoder, \
                deserialize_and_validate_commit, blind_sign, proof_gen, blind_proof_gen; decoded objects handed on to the verifiers; (1b) every interface-identifier length 0..=300 into Generators::create, messages_to_scalar, map_message_to_scalar_as_hash, prepare_parameters, deserialize_and_validate_commit, calculate_blind_challenge, hash_to_scalar; (2) honest artefacts with generated index lists / counts over the whole usize range \
                (small, 2^32, 2^63, usize::MAX-7..usize::MAX), sorted or not, with duplicates, mismatched lengths, None spellings, into proof_gen, proof_verify, blind_proof_gen, blind_proof_verify (L), update_signature (index, n), verify, verify_blind_sign, sign, commit; \
-               (3) mutated honest JSON of every serde type, decoded objects handed on; thorough adds a libFuzzer campaign over a structured target. \
+               one decoded proof object used for a series of verifier calls with lists of different lengths; (3) mutated honest JSON of every serde type, decoded objects handed on; thorough adds a libFuzzer campaign over a structured target. \
                a cold-start contention phase (all workers calling sign / verify / proof_gen / proof_verify / commit with 3..130 messages at once) and the byte-level entry function of the libFuzzer target run in-process on its seed corpus and on pseudo-random bytes; Oracle: the call returns (Ok or Err) under catch_unwind in a build with overflow checks, within a generator budget of 4*(input units)+16 (hook H1); \
                non-trivial = input that is not an honest encoding with in-range indexes; evaluations = entry-point calls"
             .into(),
